@@ -295,6 +295,10 @@ func (self *Metadata) enumerateTemp() ([]string, error) {
 		return nil, nil
 	} else {
 		paths, err := util.Readdirnames(td)
+		if err != nil && os.IsNotExist(err) {
+			// A temp directory which is already gone holds nothing.
+			return nil, nil
+		}
 		for i, p := range paths {
 			paths[i] = path.Join(td, p)
 		}
